@@ -161,18 +161,38 @@ def jobs(tier, seed):
                        replace=list(pin_contracts), spec=['movegen.h'], force_globals=['PINS'],
                        pre_text='static inline uint32_t sp_kind8(uint32_t pc) { return pc == 0 ? 0u : (pc - 1u) % 6u + 1u; }\n', timeout=1500,
                        note='pins: pinned set and pin records (square, kind, ray) in ray order, over the contracts of the eight per-ray functions'))
-        # ---- forbidden squares (attacked with the own king x-rayed out), point-wise in three ghost squares
+        # ---- forbidden squares (attacked with the own king x-rayed out), point-wise at the ghost square G_F1 (the contract holds for every value
+        #      of the ghost, which the function never reads: callers may instantiate it at several squares).  Loop contracts over the four piece lists;
+        #      both directions go through ghost witnesses because invariants may not call functions:
+        #        G_FBV   == spec_forbidden_bit(G_F1)                      soundness:    bit set            ==> G_FBV
+        #        G_CAUSE == one attacker (kind, square) if there is any   completeness: its list slot done  ==> bit set
+        #        G_WI    == the slot of that attacker in its piece list (exists by the list invariant)
         ff = 'forbidden_squares_%d' % side
-        EB = lambda k: '($1->_by_color_bb[%d] & $1->_by_piece_kind_bb[%d])' % (1 - side, k)
+        E = 1 - side
+        EB = lambda k: '($1->_by_color_bb[%d] & $1->_by_piece_kind_bb[%d])' % (E, k)
         FA = '$1->_piece_position[%d][0], ($1->_by_color_bb[0] | $1->_by_color_bb[1]), %s, %s, %s, %s, %s, %s' % (6 + 6 * side, EB(1), EB(2), EB(3), EB(4), EB(5), EB(6))
-        c = ('__CPROVER_requires(wf_board($1) && wf_lists($1) && $1->_piece_count[6] == 1 && $1->_piece_count[12] == 1 && G_F1 < 64 && G_F2 < 64 && G_F3 < 64)\n__CPROVER_assigns()\n' +
-             ''.join('__CPROVER_ensures(((__CPROVER_return_value >> %s) & 1) == spec_forbidden_bit(%d, %s, %s))\n' % (g, side, g, FA) for g in ('G_F1', 'G_F2', 'G_F3')))
-        h = ND + ('void h_fb(void) { for (uint32_t s = 0; s < 64; s++) { KNIGHT_MASK[s] = spec_knight(s); KING_MASK[s] = spec_king(s); }\n'
-                  '  struct Position P = nondet_Position(); G_F1 = nondet_u32(); G_F2 = nondet_u32(); G_F3 = nondet_u32(); %s(&P);' % ff + CANARY + '}\n')
-        out.append(Job('leaf/forbidden_squares_' + sn, MTUS, [ff], h, 'h_fb', contracts=dict(SLP, **{ff: c}), nobody=list(SLP), enforce=ff, replace=list(SLP),
-                       spec=['poswf_decl.h', 'movegen.h'], post_spec=['poswf.h'], pre_text='uint32_t G_F1, G_F2, G_F3;\n', timeout=2400,
-                       unwindset=loops_unwind([('forbidden_squares', 11)]), route='closed-by-complete-unwinding(11): piece lists have 10 slots',
-                       note='squares attacked by the enemy with the own king lifted off (union over the enemy piece lists) == attacked-from-the-square formulation, at three ghost squares'))
+        c = ('__CPROVER_requires(wf_board($1) && wf_lists($1) && $1->_piece_count[6] == 1 && $1->_piece_count[12] == 1 && G_F1 < 64 && G_F2 < 64 && G_F3 < 64)\n'
+             '__CPROVER_requires(G_FBV == spec_forbidden_bit(%d, G_F1, %s))\n' % (side, FA) +
+             '__CPROVER_requires(G_CAUSE == spec_fb_cause(%d, G_F1, %s))\n' % (side, FA) +
+             '__CPROVER_requires(G_WI == spec_slot_of($1, (G_CAUSE >> 8) + %d, G_CAUSE & 255))\n' % (6 * E) +
+             '__CPROVER_assigns()\n'
+             '__CPROVER_ensures(((__CPROVER_return_value >> G_F1) & 1) == spec_forbidden_bit(%d, G_F1, %s))\n' % (side, FA))
+        lc = {}
+        for li, K in enumerate((2, 3, 4, 5)):
+            cnt = 'pos->_piece_count[%d]' % (K + 6 * E)
+            lc[(ff, li + 1)] = ['__CPROVER_assigns(i, bb)', '__CPROVER_loop_invariant(0 <= i && i <= %s && %s <= 10)' % (cnt, cnt),
+                                '__CPROVER_loop_invariant(((bb >> G_F1) & 1) ==> G_FBV)',
+                                '__CPROVER_loop_invariant((((G_CAUSE >> 8) == 1) || ((G_CAUSE >> 8) >= 2 && (G_CAUSE >> 8) < %d) || ((G_CAUSE >> 8) == %d && G_WI < i)) ==> ((bb >> G_F1) & 1))' % (K, K),
+                                '__CPROVER_decreases(%s - i)' % cnt]
+        SLOT = ('int spec_slot_of(const struct Position *p, uint32_t pc, uint32_t sq)\n'
+                '{ int r = -1; for (int k = 0; k < 10; k++) if (pc <= 12 && k < p->_piece_count[pc] && p->_piece_position[pc][k] == sq) r = k; return r; }\n')
+        h = ND + SLOT + ('void h_fb(void) { for (uint32_t s = 0; s < 64; s++) { KNIGHT_MASK[s] = spec_knight(s); KING_MASK[s] = spec_king(s); }\n'
+                         '  struct Position P = nondet_Position(); G_F1 = nondet_u32(); G_F2 = nondet_u32(); G_F3 = nondet_u32(); G_FBV = nondet_bool(); G_CAUSE = nondet_u32(); G_WI = nondet_int(); %s(&P);' % ff + CANARY + '}\n')
+        kw = dict(common)
+        kw.update(spec=['poswf_decl.h', 'movegen.h'], post_spec=['poswf.h'], pre_text=EMIT_PRE + 'uint32_t G_F1, G_F2, G_F3, G_CAUSE; _Bool G_FBV; int G_WI;\nstruct Position; int spec_slot_of(const struct Position *p, uint32_t pc, uint32_t sq);\n')
+        out.append(Job('leaf/forbidden_squares_' + sn, MTUS, [ff], h, 'h_fb', contracts=dict(SLP, **{ff: c}), nobody=list(SLP), enforce=ff, replace=list(SLP), loopc=lc,
+                       timeout=2400, backend='cadical', route='loop contracts (unbounded) over the four enemy piece lists',
+                       note='squares attacked by the enemy with the own king lifted off (union over the enemy piece lists) == "some enemy piece attacks the square", at a ghost square', **kw))
         # ---- checkers
         fc = 'checkers_%d' % side
         K = 'position->_piece_position[%d][0]' % (6 + 6 * side)
@@ -197,46 +217,106 @@ def jobs(tier, seed):
 
 # ------------------------------------------------------------------------------------------------ composition
 def composition_jobs(leaf_contracts):
-    """generate_legal_moves<side> under contract with every leaf by contract: emitted moves == the algorithm predicate spec_alg_count."""
+    """generate_legal_moves<side> under contract, every leaf by contract: the emitted moves are exactly those of the mask-glue
+    predicate spec_alg_core for EVERY value of the geometric sub-queries (ghosts G_AG: checkers, pinned square per ray, attack set of
+    the moving piece, forbidden bits at the squares the ghost move needs, king-checker segment).
+
+    Leaves whose proved contract mentions a geometric spec function are used here in their ghost-instantiated form: the proved
+    contract holds for the true value of the sub-query, the composition holds for every value, hence for the true one (see
+    `assembly` below, which also discharges the typing facts assumed of the ghost values)."""
     out = []
     for side in (0, 1):
         sn = ('white', 'black')[side]
         fn = 'generate_legal_moves_%d' % side
-        leafs = ['checkers_%d' % side, 'forbidden_squares_%d' % side, 'generate_pawn_moves_%d' % side, 'generate_enpassant_%d' % side, 'generate_king_moves',
-                 'generate_pinned_piece_moves_%d' % side] + ['generate_piece_moves_%d' % k for k in (2, 3, 4, 5)] + ['generate_pin_in_ray_%d_%d' % (side, r) for r in range(8)]
-        cs = {k: leaf_contracts[k] for k in leafs}
+        KSQ = '$1->_piece_position[%d][0]' % (6 + 6 * side)
+        OCC1 = '($1->_by_color_bb[0] | $1->_by_color_bb[1])'
+        cs = {}
+        for k in ['generate_pawn_moves_%d' % side, 'generate_enpassant_%d' % side, 'generate_king_moves', 'generate_pinned_piece_moves_%d' % side]:
+            cs[k] = leaf_contracts[k]                      # used exactly as proved
+        # (1) checkers: value abstracted
+        cs['checkers_%d' % side] = '__CPROVER_requires(position->_piece_position[%d][0] < 64)\n__CPROVER_assigns()\n__CPROVER_ensures(__CPROVER_return_value == G_AG.checkers)\n' % (6 + 6 * side)
+        # (2) forbidden squares: bits at the three ghost squares abstracted (same precondition as the proved contract)
+        pre_fb = leaf_contracts['forbidden_squares_%d' % side].split('\n')[0]
+        cs['forbidden_squares_%d' % side] = (pre_fb + '\n__CPROVER_assigns()\n'
+                                             '__CPROVER_ensures(((__CPROVER_return_value >> G_F1) & 1) == G_AG.fb_a && ((__CPROVER_return_value >> G_F2) & 1) == G_AG.fb_b && ((__CPROVER_return_value >> G_F3) & 1) == G_AG.fb_t)\n')
+        # (3) per-ray pin: pinned square abstracted (the proved contract is about the blockers handed in; they must be the occupancy)
+        for ray in range(8):
+            fr = 'generate_pin_in_ray_%d_%d' % (side, ray)
+            Q = 'G_AG.pin[%d]' % ray
+            cs[fr] = ('__CPROVER_requires(%s < 64 && __CPROVER_same_object($2, PINS) && __CPROVER_POINTER_OFFSET($2) %% 4 == 0 && __CPROVER_POINTER_OFFSET($2) + 4 <= 64 && __CPROVER_rw_ok($3, 8) && $4 == %s)\n' % (KSQ, OCC1) +
+                      '__CPROVER_assigns(*$2, *$3)\n'
+                      '__CPROVER_ensures(%s == 64 ==> (__CPROVER_return_value == __CPROVER_old($2) && *$3 == __CPROVER_old(*$3)))\n' % Q +
+                      '__CPROVER_ensures(%s != 64 ==> (__CPROVER_return_value == __CPROVER_old($2) + 1 && *$3 == (__CPROVER_old(*$3) | (1ULL << %s)) && '
+                      '*__CPROVER_old($2) == ((%du << 9) | (sp_kind8($1->_board[%s]) << 6) | %s)))\n' % (Q, Q, ray, Q, Q))
+        # (4) moves of one not-pinned piece: attack set abstracted (it only matters when the piece stands on the ghost move's origin)
+        for k in (2, 3, 4, 5):
+            cs['generate_piece_moves_%d' % k] = ('__CPROVER_requires(from < 64 && %s)\n' % (LISTREQ % 112) + '__CPROVER_assigns(g_cnt)\n'
+                                                 '__CPROVER_ensures(g_cnt == __CPROVER_old(g_cnt) + ((%s && %s == from && (((G_AG.att[%d] & target) >> %s) & 1)) ? 1 : 0))\n' % (PLAIN, GF, k, GT) + LISTENS % 112)
+        leafs = list(cs)
         H = 56 * side
-        c = ('__CPROVER_requires(wf_pos($1) && $1->_current_side == %d && sp_is($1, &G_P0) && !sp_in_check(G_P0.board, %d) && __builtin_popcountll($1->_by_color_bb[%d] & $1->_by_piece_kind_bb[1]) <= 8)\n' % (side, 1 - side, side) +
+        PINOK = ' && '.join('(G_AG.pin[%d] == 64 || (G_AG.pin[%d] < 64 && G_AG.pin[%d] != %s && (($1->_by_color_bb[%d] >> G_AG.pin[%d]) & 1)))' % (r, r, r, KSQ, side, r) for r in range(8))
+        c = ('__CPROVER_requires(wf_pos($1) && $1->_current_side == %d && __builtin_popcountll($1->_by_color_bb[%d] & $1->_by_piece_kind_bb[1]) <= 8)\n' % (side, side) +
              '__CPROVER_requires(__CPROVER_same_object($2, g_lo) && __CPROVER_POINTER_OFFSET($2) == 0 && g_cap_bytes == 65536 && g_cnt >= 0 && g_cnt < 1000 && (G_M >> 17) == 0)\n'
-             '__CPROVER_requires(G_F3 == %s && G_F1 == (%s == 1 ? %d : (%s == 2 ? %d : %s)) && G_F2 == (%s == 1 ? %d : (%s == 2 ? %d : %s)))\n' % (GT, GC, H + 5, GC, H + 2, GT, GC, H + 6, GC, H + 3, GT) +
-             '__CPROVER_requires(G_ATT2 == spec_knight(%s) && G_ATT3 == spec_bishop_walk(%s, OCCP) && G_ATT4 == spec_rook_walk(%s, OCCP) && G_ATT5 == (G_ATT3 | G_ATT4))\n'.replace('OCCP', '($1->_by_color_bb[0] | $1->_by_color_bb[1])') % (GF, GF, GF) +
+             '__CPROVER_requires(G_F3 == %s && G_F1 == alg_castle_sq_a(%d, %s) && G_F2 == alg_castle_sq_b(%d, %s))\n' % (GT, side, GC, side, GC) +
+             '__CPROVER_requires(%s)\n' % PINOK +
+             '__CPROVER_requires(G_AG.checkers == 0 || LINES[%s][alg_lsb(G_AG.checkers)] == G_AG.seg)\n' % KSQ +
              '__CPROVER_assigns(g_cnt, __CPROVER_object_whole(PINS))\n'
-             '__CPROVER_ensures(g_cnt == __CPROVER_old(g_cnt) + spec_alg_count(&G_P0, G_M))\n')
+             '__CPROVER_ensures(g_cnt == __CPROVER_old(g_cnt) + spec_alg_core_pos($1, %d, G_M))\n' % side)
         lc = {}
         for i, (var, k) in enumerate((('not_pinned_knights', 2), ('not_pinned_bishops', 3), ('not_pinned_rooks', 4), ('not_pinned_queens', 5))):
             lc[(fn, i + 1)] = ['__CPROVER_assigns(%s, list, g_cnt)' % var,
                                '__CPROVER_loop_invariant((%s & ~__CPROVER_loop_entry(%s)) == 0)' % (var, var),
                                '__CPROVER_loop_invariant(__CPROVER_same_object(list, g_lo) && __CPROVER_POINTER_OFFSET(list) >= __CPROVER_POINTER_OFFSET(__CPROVER_loop_entry(list)) && '
                                '__CPROVER_POINTER_OFFSET(list) <= __CPROVER_POINTER_OFFSET(__CPROVER_loop_entry(list)) + 112 * __builtin_popcountll(__CPROVER_loop_entry(%s) & ~%s))' % (var, var),
-                               '__CPROVER_loop_invariant(g_cnt == __CPROVER_loop_entry(g_cnt) + (((((__CPROVER_loop_entry(%s) & ~%s) >> %s) & 1) && %s && (((G_ATT%d & target) >> %s) & 1)) ? 1 : 0))' % (var, var, GF, PLAIN, k, GT),
+                               '__CPROVER_loop_invariant(g_cnt == __CPROVER_loop_entry(g_cnt) + (((((__CPROVER_loop_entry(%s) & ~%s) >> %s) & 1) && %s && (((G_AG.att[%d] & target) >> %s) & 1)) ? 1 : 0))' % (var, var, GF, PLAIN, k, GT),
                                '__CPROVER_decreases(%s)' % var]
-        h = ND + ('uint32_t BUF[16384];\n'
+        h = ND + ('AlgGhost nondet_AlgGhost(void);\n' + ALGPOS +
                   'void h_gl(void) {\n'
                   '  verif_restore_statics();\n'
-                  '  for (uint32_t a = 0; a < 64; a++) for (uint32_t b = 0; b < 64; b++) LINES[a][b] = spec_segment(a, b);   /* C11: geom/lines */\n'
                   '  CASTLING_PATHS[1] = 0x60ULL; CASTLING_PATHS[2] = 0x0CULL; CASTLING_PATHS[4] = 0x6000000000000000ULL; CASTLING_PATHS[8] = 0x0C00000000000000ULL;   /* C11: geom/rays_masks */\n'
-                  '  struct Position P = nondet_Position(); sp_of(&P, &G_P0); W_P = P;\n'
-                  '  g_lo = BUF; g_cap_bytes = sizeof(BUF); G_M = nondet_u32(); g_cnt = nondet_int(); W_m = G_M;\n'
-                  '  G_F1 = nondet_u32(); G_F2 = nondet_u32(); G_F3 = nondet_u32(); G_ATT2 = nondet_u64(); G_ATT3 = nondet_u64(); G_ATT4 = nondet_u64(); G_ATT5 = nondet_u64();\n'
+                  '  struct Position P = nondet_Position(); W_P = P;\n'
+                  '  uint32_t *BUF = malloc(65536); __CPROVER_assume(BUF != 0);   /* the move list: never read or written here (stores are projected to the capacity assertion) */\n'
+                  '  g_lo = BUF; g_cap_bytes = 65536; G_M = nondet_u32(); g_cnt = nondet_int(); W_m = G_M; G_AG = nondet_AlgGhost();\n'
+                  '  G_F1 = nondet_u32(); G_F2 = nondet_u32(); G_F3 = nondet_u32();\n'
                   '  %s(&P, BUF);' % fn + CANARY + '}\n')
-        pre = EMIT_PRE + ('uint32_t G_F1, G_F2, G_F3; uint64_t G_ATT2, G_ATT3, G_ATT4, G_ATT5; SPos G_P0; struct Position W_P; uint32_t W_m;\n'
-                          'static inline uint32_t sp_kind8(uint32_t pc) { return pc == 0 ? 0u : (pc - 1u) % 6u + 1u; }\n')
-        out.append(Job('compose/generate_legal_moves_' + sn, MTUS, [fn], h, 'h_gl', contracts=dict(cs, **{fn: c}), nobody=leafs, loopc=lc, enforce=fn, replace=leafs,
-                       loop_contracts=True, hooks=HOOKS, spec=['poswf_decl.h', 'movegen.h'], post_spec=['poswf.h'], pre_text=pre, force_globals=['PINS'],
+        stubs = [k for k in leafs if '__CPROVER_assigns()' not in cs[k]]     # leaves that write (ghost counter, pin records): stub form, see tools/cxx2c.py stub_text
+        out.append(Job('compose/generate_legal_moves_' + sn, MTUS, [fn], h, 'h_gl', contracts=dict(cs, **{fn: c}), nobody=leafs, loopc=lc, enforce=fn, replace=leafs, stubs=stubs,
+                       loop_contracts=True, hooks=HOOKS, spec=['poswf_decl.h', 'movegen.h'], post_spec=['poswf.h'], pre_text=COMPOSE_PRE, force_globals=['PINS'],
                        unwindset=loops_unwind([(fn, 9)]), timeout=3000, expect=['loop_invariant_step'],
                        route='loop contracts on the four piece loops; pin loop closed-by-complete-unwinding(9): at most 8 pins',
-                       note='generate_legal_moves<%s> emits exactly the moves of the check-mask / pin algorithm predicate (spec_alg_count), each once - every leaf generator by contract' % sn))
+                       note='generate_legal_moves<%s> emits exactly the moves of the mask-glue predicate spec_alg_core, each once, for every value of the geometric sub-queries the leaf contracts allow - every leaf generator by contract' % sn))
+    # assembly: for a well-formed Position and its mailbox abstraction, the square sets read off the bitboards are the sets of the board, the true values of
+    # the sub-queries satisfy what the composition assumes of its ghosts, and LINES holds the segment the composition assumes - hence
+    # composition[G := true values] gives  engine == spec_alg_count(abstraction, m)
+    h = ND + ('SPos nondet_SPos(void);\n' + ALGPOS +
+              'void h_as(void) {\n'
+              '  struct Position P = nondet_Position(); uint32_t m = nondet_u32(); SPos S0; __CPROVER_assume(wf_pos(&P)); sp_of(&P, &S0);\n'
+              '  AlgSets A, B; spec_alg_sets(&S0, &B); alg_sets_of_pos(&P, P._current_side, &A);\n'
+              '  __CPROVER_assert(A.own == B.own && A.enemy == B.enemy && A.k == B.k && A.side == B.side && A.rights == B.rights && A.ep == B.ep, "sets read off the bitboards == sets of the mailbox board (colours, king square, state)");\n'
+              '  __CPROVER_assert(A.kind[1] == B.kind[1] && A.kind[2] == B.kind[2] && A.kind[3] == B.kind[3] && A.kind[4] == B.kind[4] && A.kind[5] == B.kind[5] && A.kind[6] == B.kind[6], "sets read off the bitboards == sets of the mailbox board (kinds)");\n'
+              '  AlgGhost T; spec_alg_true_ghost(&A, m, &T);\n'
+              '  for (int r = 0; r < 8; r++) __CPROVER_assert(T.pin[r] == 64 || (T.pin[r] < 64 && T.pin[r] != A.k && ((A.own >> T.pin[r]) & 1)), "true pinned square: none, or an own piece other than the king");\n'
+              '  __CPROVER_assert(A.k < 64, "the king square read from the piece list is on the board");' + CANARY + '}\n')
+    out.append(Job('compose/assembly', MTUS, ['checkers_0'], h, 'h_as', spec=['poswf_decl.h', 'pos.h', 'movegen.h'], post_spec=['poswf.h'], timeout=1800,
+                   note='assembly lemma: bitboard sets == mailbox sets for well-formed positions; the true geometric values satisfy the typing facts the composition assumes of its ghosts'))
     return out
+
+
+COMPOSE_PRE = EMIT_PRE + ('#define HAVE_G_AG 1\nuint32_t G_F1, G_F2, G_F3; AlgGhost G_AG; struct Position W_P; uint32_t W_m;\n'
+                          'static inline uint32_t sp_kind8(uint32_t pc) { return pc == 0 ? 0u : (pc - 1u) % 6u + 1u; }\n'
+                          'struct Position; int spec_alg_core_pos(const struct Position *p, uint32_t side, uint32_t m);\n')
+# the square sets of spec_alg_core read off the engine's bitboards (needs struct Position: placed in the harness text)
+ALGPOS = r"""
+void alg_sets_of_pos(const struct Position *p, uint32_t side, AlgSets *S)
+{
+  S->own = p->_by_color_bb[side & 1]; S->enemy = p->_by_color_bb[1 - (side & 1)];
+  S->kind[0] = 0; for (uint32_t k = 1; k <= 6; k++) S->kind[k] = p->_by_piece_kind_bb[k];
+  S->k = p->_piece_position[6 + 6 * (side & 1)][0]; S->side = side; S->rights = p->_castling_rights; S->ep = p->_enpassant_square;
+}
+#ifdef HAVE_G_AG
+int spec_alg_core_pos(const struct Position *p, uint32_t side, uint32_t m) { AlgSets S; alg_sets_of_pos(p, side, &S); return spec_alg_core(&S, &G_AG, m); }
+#endif
+"""
 
 
 # replay of a counterexample position on the real generator: every candidate move is compared with the rule oracle
